@@ -301,6 +301,27 @@ func c20(r *core.Run) {
 			}
 		}
 	}
+	// ---- I1 (continued): an emptied collection stays a collection ---------------
+	// a slice rebuilt by appending a spread of unknown length onto a nil slice is nil when nothing
+	// is appended; json.Marshal then stores `null` where the fold of the events is `[]`
+	for _, mp := range mwPkgs {
+		for _, fn := range p.FuncsOfPkg(mp.rel) {
+			for _, c := range core.Calls(fn) {
+				call, ok := c.(*ssa.Call)
+				if !ok || core.CalleeName(call) != "builtin:append" || len(call.Call.Args) < 2 {
+					continue
+				}
+				if !isNilConst(call.Call.Args[0]) {
+					continue
+				}
+				// appending a literal element list (one or more elements) cannot stay nil
+				if elemOfVarargs(call.Call.Args[1]) != nil {
+					continue
+				}
+				r.Bad("I1", core.FuncName(fn), "no-rebuild-on-a-nil-slice", p.InstrPos(call), "a collection is rebuilt by appending a slice of unknown length onto a nil slice: when the result is empty it is nil and is stored as JSON null - after removing the last element get serves null instead of []")
+			}
+		}
+	}
 	// ---- D1 --------------------------------------------------------------
 	for _, mp := range mwPkgs {
 		if m := methodNamed(p, mp.rel, mp.typ, "applyChange"); m != nil {
